@@ -13,6 +13,40 @@ const NAMES: [&str; 5] = ["", "a", "b", "ab", "é"];
 const LKEYS: [&str; 4] = ["a", "b", "c", ""];
 const LVALS: [&str; 4] = ["1", "2", "", "ü"];
 
+// The static strings handed to the library are slices of one buffer each, so that different
+// strings (the empty one, "a", "ab") start at the same address: equality by pointer alone, without
+// the length, would be wrong for them.
+static NAME_BUF: &str = "abé";
+static LKEY_BUF: &str = "abc";
+static LVAL_BUF: &str = "12ü";
+fn sname(i: usize) -> &'static str {
+    let s: &'static str = match i {
+        0 => &NAME_BUF[..0],
+        1 => &NAME_BUF[..1],
+        2 => &NAME_BUF[1..2],
+        3 => &NAME_BUF[..2],
+        _ => &NAME_BUF[2..],
+    };
+    debug_assert_eq!(s, NAMES[i]);
+    s
+}
+fn skey(i: usize) -> &'static str {
+    match i {
+        0 => &LKEY_BUF[..1],
+        1 => &LKEY_BUF[1..2],
+        2 => &LKEY_BUF[2..3],
+        _ => &LKEY_BUF[..0],
+    }
+}
+fn sval(i: usize) -> &'static str {
+    match i {
+        0 => &LVAL_BUF[..1],
+        1 => &LVAL_BUF[1..2],
+        2 => &LVAL_BUF[..0],
+        _ => &LVAL_BUF[2..],
+    }
+}
+
 #[derive(Clone, Debug, Serialize, Deserialize, PartialEq)]
 pub struct KeySpec {
     pub name: usize,
@@ -59,7 +93,7 @@ fn leak_labels(v: Vec<Label>) -> &'static [Label] {
 
 fn mk_label(k: usize, v: usize, style: u8) -> Label {
     match style % 3 {
-        0 => Label::from_static_parts(LKEYS[k], LVALS[v]),
+        0 => Label::from_static_parts(skey(k), sval(v)),
         1 => Label::new(String::from(LKEYS[k]), String::from(LVALS[v])),
         _ => Label::new(SharedString::from(Arc::<str>::from(LKEYS[k])), SharedString::from(Arc::<str>::from(LVALS[v]))),
     }
@@ -67,7 +101,8 @@ fn mk_label(k: usize, v: usize, style: u8) -> Label {
 
 pub fn build(spec: &KeySpec) -> Key {
     let labels = |style: u8| -> Vec<Label> { spec.labels.iter().map(|(k, v)| mk_label(*k, *v, style)).collect() };
-    let name = NAMES[spec.name];
+    let name = sname(spec.name);
+    assert!(name == NAMES[spec.name] && spec.labels.iter().all(|(k, v)| skey(*k) == LKEYS[*k] && sval(*v) == LVALS[*v]));
     match spec.path % 9 {
         0 => Key::from_parts(name, labels(0)),
         1 => Key::from_parts(String::from(name), labels(1)),
